@@ -35,6 +35,10 @@ def eval_call(ex: Executor, node: ast.Call, st: State):
     if node.keywords and any(k.arg is None for k in node.keywords):
         raise Unsupported(f"**kwargs call at {ex.where(node)}")
     f = node.func
+    ov0 = getattr(ex.contract, "call_overrides", {})
+    txt0 = ast.unparse(f)
+    if txt0 in ov0:
+        return ov0[txt0](ex, node, st)
     # ---- method calls -------------------------------------------------------
     if isinstance(f, ast.Attribute):
         # super().method(args)
